@@ -93,7 +93,7 @@ def rule_g(chk: Check) -> None:
             par = g.reach([g.entry.id], blocked_edges=blocked, follow=normal_only)
             dominates = all(f.id not in par for f in fetch)
             # one append per hop, on the way to the recursion, same chain and limit passed
-            apps = [x for x in g.nodes if x.ast is not None and x.kind == "stmt" and any(method_call(c) and method_call(c)[1] == "append" and dotted(method_call(c)[0]) == chain for c in calls(x.ast))]
+            apps = [x for x in g.nodes if x.ast is not None and x.kind == "stmt" and any(method_call(c) and method_call(c)[1] in ("append", "add") and dotted(method_call(c)[0]) == chain for c in calls(x.ast))]
             one_append = len(apps) == 1 and all(r.id not in g.reach([fetch[0].id], blocked_nodes={apps[0].id}, follow=normal_only) for r in rec) if apps else False
             not_in_loop = True
             passes = True
@@ -107,7 +107,11 @@ def rule_g(chk: Check) -> None:
                 if dotted(kws.get(chain)) != chain or dotted(kws.get(limit)) != limit:
                     passes = False
             # the chain starts empty
-            init_ok = any(isinstance(st, ast.Assign) and dotted(st.targets[0]) == chain and isinstance(st.value, ast.List) and not st.value.elts for st in walk(rf.node))
+            init_ok = any(
+                isinstance(st, (ast.Assign, ast.AnnAssign)) and dotted(st.targets[0] if isinstance(st, ast.Assign) else st.target) == chain
+                and ((isinstance(st.value, (ast.List, ast.Set)) and not st.value.elts) or (isinstance(st.value, ast.Call) and dotted(st.value.func) in ("set", "list") and not st.value.args))
+                for st in walk(rf.node)
+            )
             if val is not None:
                 ok = val == 1 and dominates and one_append and passes and init_ok
                 if val != 1:
@@ -181,7 +185,7 @@ def rule_g(chk: Check) -> None:
         if any(f.id in par for f in fetch):
             ok5 = False
         chain = dotted(lt[0].ast.comparators[0])
-        apps = [c for c in calls(rf.node) if method_call(c) and method_call(c)[1] == "append" and dotted(method_call(c)[0]) == chain]
+        apps = [c for c in calls(rf.node) if method_call(c) and method_call(c)[1] in ("append", "add") and dotted(method_call(c)[0]) == chain]
         if not apps or any(dotted(a.args[0]) != url_p for a in apps):
             ok5 = False
     if not ok5:
